@@ -16,3 +16,9 @@ func init() {
 	props["C02"] = propCfg{Level: "exploration", Assume: common,
 		Rule: "cases: every labeled forest up to the node bound in 5 bullet-root spellings, well-formed (must be accepted and complete in text/json/yaml/toml/dry-run/walk, simple iterator, simple non-iterator and massive) and with one injected malformed line of each class M1..M6 at every line position (must be rejected; M1/M3/M4 rejections must contain the row), plus seeded random larger documents with one injection; distinct key = hash(forest, spelling, class, position, variant, entry/mode); non-trivial = an injected document, or a well-formed forest with >= 2 nodes"}
 }
+
+func init() {
+	props["C12"] = propCfg{Level: "exploration",
+		Assume: []string{"a panic in any goroutine kills the worker process and is attributed to the input journalled before the call", "hang = all gtree goroutines blocked with unchanged ids in two observations >= 300 ms apart"},
+		Rule: "cases: degenerate list, blank-only family, size extremes (64 KiB lines, 20k-100k roots, depth 600-2000), grammar-aware mutations of valid documents, raw biased byte strings, programmatic trees with hostile names; each through every entry point (output text/branch/json/yaml/toml/dry-run, walk, mkdir dry-run and real in a jail, verify strict/non-strict) x {simple, massive}; one evaluation = one real call watched for panic (recover + process death), deadlock (goroutine monitor) and, for blank-only input, empty output and nil; distinct key = hash(input bytes, entry point, mode); non-trivial = non-empty input"}
+}
